@@ -3,7 +3,8 @@
 
     python3-vt /verif/smt/run.py <PROP> --tier quick|thorough --out <file.json>
 
-PROP in C06, C07, C12, C15, C16, C01.  Exit code 0 when the run completed (whatever the
+PROP in C06, C07, C12, C15, C16, C01 (ring / real encodings) and C13, C14, C07S, C02S, C01S, C08S, C17, C18
+(felt-sx: symbolic execution of the Vec / iterator heavy code, z3 integers, collision-free UF hashes).  Exit code 0 when the run completed (whatever the
 verdicts); non-zero only on an internal crash.  Environment: VERIF_REPO (default /repo),
 VERIF_SEED (default 0), VERIF_XCHECK=0 disables the z3-binary / cvc5 cross-checks.
 """
@@ -19,10 +20,12 @@ sys.setrecursionlimit(20000)
 
 def main():
     ap = argparse.ArgumentParser()
-    ap.add_argument("prop", choices=["C06", "C07", "C12", "C15", "C16", "C01"])
+    ap.add_argument("prop", choices=["C06", "C07", "C12", "C15", "C16", "C01",
+                                     "C13", "C14", "C07S", "C02S", "C01S", "C08S", "C17", "C18"])
     ap.add_argument("--tier", choices=["quick", "thorough"], default="quick")
     ap.add_argument("--out", default=None)
-    ap.add_argument("--layouts", default=None, help="comma separated subset of layouts (C16/C01)")
+    ap.add_argument("--layouts", default=None, help="comma separated subset of layouts (C16/C01/C14)")
+    ap.add_argument("--only", default=None, help="comma separated entry points / obligation groups (C18, C17; debugging aid)")
     args = ap.parse_args()
     t0 = time.time()
     if args.out:
@@ -43,9 +46,27 @@ def main():
     elif args.prop == "C16":
         import c16
         res = c16.run_c16(args.tier, args.layouts.split(",") if args.layouts else None)
-    else:
+    elif args.prop == "C01":
         import c16
         res = c16.run_c01(args.tier, args.layouts.split(",") if args.layouts else None)
+    elif args.prop == "C13":
+        import c13
+        res = c13.run(args.tier)
+    elif args.prop == "C14":
+        import c14
+        res = c14.run(args.tier, args.layouts.split(",") if args.layouts else None)
+    elif args.prop == "C18":
+        import c18
+        res = c18.run(args.tier, args.only.split(",") if args.only else None)
+    elif args.prop == "C07S":
+        import c07s
+        res = c07s.run(args.tier)
+    elif args.prop in ("C01S", "C08S", "C02S"):
+        import cstark
+        res = cstark.run(args.prop, args.tier)
+    else:
+        import c17
+        res = c17.run(args.tier)
     res["repo"] = common.REPO
     res["seed"] = common.SEED
     res["wall_s"] = round(time.time() - t0, 2)
